@@ -117,3 +117,19 @@ package load
 //@   property C02
 //@   results p, err
 //@   ensures err == nil && p != nil
+
+// Shedder / Promise as interfaces (what the middlewares rely on): a granted promise is resolved by Pass or Fail.
+//@ ghost var shAllows int
+//@ ghost var shPromise any
+//@ ghost var shErr error
+//@ ghost var resolved map[any]int
+//@ extern func (s Shedder) Allow
+//@   results p, err
+//@   ensures shAllows == old(shAllows) + 1 && p == shPromise && err == shErr && implies(err == nil, p != nil && resolved[p] == 0)
+//@   modifies shAllows, shPromise, shErr, resolved[shPromise]
+//@ extern func (p Promise) Pass
+//@   ensures resolved[p] == old(resolved[p]) + 1
+//@   modifies resolved[p]
+//@ extern func (p Promise) Fail
+//@   ensures resolved[p] == old(resolved[p]) + 1
+//@   modifies resolved[p]
